@@ -93,7 +93,7 @@ PROPS = {
              "Theorems: the traveltime output of sweep/sweep2d/sweep3d does not depend on the gradient flag or the sign array (bit-level, "
              "source semantics), nor does the whole solver's; over R every gradient vector returned by fteik2d / fteik3d is the zero vector or has norm 1. Zero at the source, direction and the compiled build's "
              "bit-identity are examined on the implementation.", RULE_SOLVE, props="props/C11.v"),
-    "C12": P(GALL, ALLG, "proof",
+    "C12": P(GALL + ["ApiGen"], ALLG, "proof",
              "Theorems: index obligations (f_ok: every subscript in range, no negative wrap-around) of the generated kernels hold for all shapes and inputs: "
              "the WHOLE solvers fteik2d (binary64: 1..2^50 cells per axis, via Flocq) and fteik3d (binary64 unconditional), node updates, passes, gradient "
              "assembly under the sign invariant, the four interpolators, shrink and both ray tracers, single and list forms; the public API is run under "
